@@ -23,14 +23,16 @@ import (
 // Env is the static world of one case: hosts, handles, pools (hence the
 // universe of block CIDRs, numbered 0..), reservations, and the store.
 type Env struct {
-	Hosts   []string
-	Handles []string
-	Pools   []v3.IPPool
-	Resv    []v3.IPReservation
-	Blocks  []cnet.IPNet // every block CIDR of every pool, pool order then address order
-	BlockOf map[string]int
-	PoolOf  []int // block id -> pool index
-	S       *Store
+	Hosts      []string
+	Handles    []string
+	Pools      []v3.IPPool
+	Resv       []v3.IPReservation
+	Blocks     []cnet.IPNet // every block CIDR of every pool, pool order then address order
+	BlockOf    map[string]int
+	PoolOf     []int // block id -> pool index
+	S          *Store
+	NodeLabels map[string]map[string]string
+	Strict     bool // IPAM config StrictAffinity (allocations are made with the affinity check)
 }
 
 // ---- pools / reservations accessors handed to ipam.NewIPAMClient -------------
@@ -151,7 +153,7 @@ type AbsBlock struct {
 	Slots   []string // "." free, "c" cooldown, "L<h>" live with handle id h (0 = no handle, ? = unknown handle)
 	Unalloc []int
 	Seq     map[int]uint64 // per-ordinal allocation sequence number (not part of the rendered value)
-	WFErr   string // non-empty: the stored block violates a structural well-formedness condition
+	WFErr   string         // non-empty: the stored block violates a structural well-formedness condition
 }
 
 func (e *Env) ParseBlock(val string) (*model.AllocationBlock, error) {
@@ -355,8 +357,8 @@ type Violation struct {
 // World is the abstract view of the whole store.
 type World struct {
 	Blocks  map[int]AbsBlock
-	Handles map[int]map[int]int    // handle id -> block id -> count
-	Affs    map[[2]int]string      // (host, block) -> state
+	Handles map[int]map[int]int // handle id -> block id -> count
+	Affs    map[[2]int]string   // (host, block) -> state
 	Other   []string
 }
 
